@@ -2,6 +2,7 @@
 From Coq Require Import QArith Qcanon ZArith List Bool String Permutation.
 Require Import CGT.Model.Num CGT.Model.Date CGT.Model.Ledger CGT.Model.Match CGT.Model.Agg CGT.Model.Report CGT.Model.Config
                CGT.Proofs.AggFacts CGT.Proofs.LedgerFacts.
+Require Import CGT.Proofs.FillFacts.
 Import ListNotations.
 Open Scope Qc_scope.
 
@@ -19,6 +20,22 @@ Proof. exact mk_day_perm. Qed.
 Theorem C06_perm : forall P cfg yf l l', Permutation l l' -> events_order_free l ->
   report_of P cfg yf l = report_of P cfg yf l'.
 Proof. exact report_of_perm. Qed.
+
+(* Fill splitting: a purchase (or a sale) recorded as two same-day fills of the same security with the same total quantity,
+   consideration (quantity x price) and fees gives the same report - wherever in the ledger the lines stand; by repetition, any
+   number of fills. *)
+Theorem C06_buy_fills : forall P cfg yf a b d s q p f q1 p1 f1 q2 p2 f2,
+  q1 + q2 = q -> q1 * p1 + q2 * p2 = q * p -> f1 + f2 = f ->
+  report_of P cfg yf (a ++ {| t_date := d; t_tick := s; t_op := Buy q p f |} :: b) =
+  report_of P cfg yf (a ++ {| t_date := d; t_tick := s; t_op := Buy q1 p1 f1 |} :: {| t_date := d; t_tick := s; t_op := Buy q2 p2 f2 |} :: b).
+Proof. intros. apply report_of_fill. apply buy_fills; assumption. Qed.
+Theorem C06_sell_fills : forall P cfg yf a b d s q p f q1 p1 f1 q2 p2 f2,
+  q1 + q2 = q -> q1 * p1 + q2 * p2 = q * p -> f1 + f2 = f ->
+  report_of P cfg yf (a ++ {| t_date := d; t_tick := s; t_op := Sell q p f |} :: b) =
+  report_of P cfg yf (a ++ {| t_date := d; t_tick := s; t_op := Sell q1 p1 f1 |} :: {| t_date := d; t_tick := s; t_op := Sell q2 p2 f2 |} :: b).
+Proof. intros. apply report_of_fill. apply sell_fills; assumption. Qed.
+Print Assumptions C06_buy_fills.
+Print Assumptions C06_sell_fills.
 
 (* non-vacuity: a two-security ledger with a same-day purchase and sale, reversed *)
 Definition c06_ledger : list gtxn :=
